@@ -172,6 +172,20 @@ func runC10(s *Sim) {
 	}
 	s.Family = "close-final/" + outage
 
+	if len(y.Downs) > 0 && outage == "none" && t.Bool("unread-backlog-at-close", 1, 8) {
+		// the application has stopped reading a downstream long before it closes it: more chunks are
+		// waiting than any internal queue holds
+		h := y.Downs[t.Choose("backlog-down", len(y.Downs))]
+		if h.B != nil && h.B.link != nil && h.B.link.Alive() {
+			fc := &faultCtx{y: y}
+			for k := 0; k < 1100; k++ {
+				fc.emit(h, false)
+			}
+			h.B.link.DeliverAll()
+			s.Wait()
+			s.Stat("env.unread-backlog-at-close")
+		}
+	}
 	bufferedAtClose := outage == "none" && t.Bool("buffered-data-at-close", 1, 2)
 	if bufferedAtClose {
 		// data is buffered in every upstream when the closes start (their final flushes run while
